@@ -284,9 +284,11 @@ func vScoreIdx(f float64) int {
 	return -1
 }
 
-// vObsStrict: also require that the same reads fail on both sides (used where both sides run the same
-// code on the same history, e.g. before Close vs after Open: there "error" and "empty" must not swap).
-var vObsStrict bool
+// vObsStrict: also require that the same reads fail on both sides. It is the default: the two sides of
+// an observation comparison run the same code on the same history (before Close vs after Open, a
+// transaction that must have no effect, a twin database), so "error" and "empty" must not swap. The
+// harnesses that compare different implementations or a merged log switch it off and say why.
+var vObsStrict = true
 
 // obsSame builds one formula: the two observations agree. "Error" and "empty" are the same outcome
 // (DESIGN §4.1: wherever a result is empty the API may report an error instead).
@@ -350,6 +352,23 @@ func runTxs(db *DB, txs [][]*sOp) []error {
 		errs = append(errs, err)
 	}
 	return errs
+}
+
+// preTxs returns n concrete single-write transactions that overwrite one key ("p") in bucket "a" with
+// the values 0,1,2,... and, every third one, push onto the list x. With a segment that holds one record
+// they spread over n data files, so that file ids reach two digits and the order in which files are
+// replayed on open (numeric, not by name) decides what is read back.
+func preTxs(n int, lists bool) [][]*sOp {
+	var txs [][]*sOp
+	for i := 0; i < n; i++ {
+		o := &sOp{kind: opPut, bucket: vKVBuckets[0], key: []byte("p"), val: []byte{byte('A' + i)}}
+		ops := []*sOp{o}
+		if lists && i%3 == 0 {
+			ops = append(ops, &sOp{kind: opRPush, dsKey: vDSKeys[0], val: []byte{byte('a' + i)}})
+		}
+		txs = append(txs, ops)
+	}
+	return txs
 }
 
 func kvKeysOf(txs [][]*sOp) [][]byte {
